@@ -167,7 +167,7 @@ func (w *world) observe(in *muxdrv.BlockInput, bp *blockPlan, res *muxdrv.BlockR
 		ok := true
 		switch {
 		case len(pays) == 0:
-		case int64(len(pays)) == nVE+1:
+		case int64(len(pays)) == nVE+1 && nVE >= 1:
 			np, sv = pays[0].amt, pays[1].amt
 		case int64(len(pays)) == nVE && nVE >= 2:
 			sv = pays[0].amt
